@@ -952,6 +952,10 @@ func (ds *AnySource) PrepareRun(Npresamples int, Nsamples int) error {
 			ts = &defaultTS
 		}
 		dsp.TriggerState = *ts
+		// The trigger state carries a second copy of the record lengths (EMTState), which is not
+		// saved and which sizes the data kept between blocks; keep it in sync with the first.
+		dsp.EMTState.nsamp = int32(dsp.NSamples)
+		dsp.EMTState.npre = int32(dsp.NPresamples)
 
 		// Publish Records and Record Summaries over ZMQ. Not optional at this time.
 		dsp.SetPubRecords()
